@@ -382,6 +382,11 @@ class LoadedWorld:
 def _tz(off_min):
     if off_min is None:
         return None
+    if isinstance(off_min, str):
+        # a rule-based zone (offset depends on the date; a bare time has no offset in it)
+        import zoneinfo
+
+        return zoneinfo.ZoneInfo(off_min)
     return datetime.timezone(datetime.timedelta(minutes=off_min))
 
 
